@@ -1625,6 +1625,31 @@ theorem c16_src_BlockCreateStats (v : Val) (f : Frag) (he : blockCreateStats.enc
     SrcBlk.BlockCreateStats false (f ++ k) = some (Blk.view_BlockCreateStats v, k) :=
   Blk.refines_BlockCreateStats.on_encoding v f he k
 
+/-- `ConfigParams.deserialize` (`config_addr`, then `config:^(Hashmap 32 ^Cell)` read by `load_hashmap` on the referenced cell with signed
+    32-bit keys and a Slice over each parameter's cell as value), regenerated from the source: every field, exact consumption. -/
+theorem c16_src_ConfigParams (v : Val) (f : Frag) (he : configParams.enc v = some f) (k : Frag) :
+    SrcBlk.ConfigParams false (f ++ k) = some (Blk.view_ConfigParams v, k) :=
+  Blk.refines_ConfigParams.on_encoding v f he k
+
+/-- `McStateExtra.deserialize` (tag `#cc26`, shard hashes — `deserialize_shard_hashes`, a pinned hand model proved against
+    `HashmapE 32 ^(BinTree ShardDescr)` with the REGENERATED `ShardDescr` parser on the leaves —, `ConfigParams`, the `^[ … ]` group:
+    `flags <= 1` checked, `ValidatorInfo`, `OldMcBlocksInfo`, `after_key_block`, `last_key_block:(Maybe ExtBlkRef)`,
+    `block_create_stats` iff `flags . 0`; `global_balance`), regenerated from the source: every field with its encoded value, exactly
+    the encoded bits and refs consumed. -/
+theorem c16_src_McStateExtra (v : Val) (f : Frag) (he : mcStateExtra.enc v = some f) (k : Frag) :
+    SrcBlk.McStateExtra false (f ++ k) = some (Blk.view_McStateExtra v, k) :=
+  Blk.refines_McStateExtra.on_encoding v f he k
+
+/-- the hand model of `deserialize_shard_hashes` + `BinTree.deserialize` (`Rd.loadShardHashes`; source text pinned by the translator)
+    against `HashmapE 32 ^(BinTree X)`: `None` / the dict of BinTree objects whose `.list` holds the leaves left to right, each parsed by
+    a leaf reader that agrees with `X`; exact consumption. -/
+theorem c16_model_shard_hashes (X : Codec) (leaf : Bool → Frag → Rd.R) (w : Val → Val)
+    (hleaf : ∀ s v s', X.dec s = some (v, s') → ∃ k, leaf false s = some (w v, k))
+    (v : Val) (f : Frag) (he : (hashmapE 32 (ref (binTree X))).enc v = some f) [Lawful X] (k : Frag) :
+    Rd.loadShardHashes leaf (f ++ k) = some (viewDict (Blk.viewBinTree w) 32 v, k) :=
+  ((Blk.shardHashesK (X := X) (leaf := leaf) (w := w) (fun s v s' hd _ => hleaf s v s' hd) _ _ _).1
+    (Lawful.law v f he k)).2
+
 /-- the hand model of `parse_aug` (boc/hashmap/parse.py; `Rd.augWalk`) returns the entries (left to right) and the extras (children
     before their fork) of ANY decoded `HashmapAug n X Y` tree value, given a value reader that agrees with `X` and an extra reader
     that refines `Y` (exact rest: the leaf reads `extra` and then `value` from the same cell). -/
